@@ -960,7 +960,7 @@ func (c *compiler) doOptimize(in []instruction) []instruction {
 		case n < len(in)-1 && in[n].Code == codePush && in[n+1].Code == codeAdd:
 			out = append(out, instruction{Pos: in[n].Pos, Code: codeIncDec, A: in[n].A})
 			n += 1
-		case n < len(in)-1 && in[n].Code == codePush && in[n+1].Code == codeSub:
+		case n < len(in)-1 && in[n].Code == codePush && in[n+1].Code == codeSub && in[n].A != 0: // x - 0 keeps the sign of a float zero, x + (-0) does not
 			out = append(out, instruction{Pos: in[n].Pos, Code: codeIncDec, A: -in[n].A})
 			n += 1
 
